@@ -128,7 +128,7 @@ func execute(rc *kit.RunCtx, w *world, specs []*txSpec, level int, scheduled boo
 	x := newExecCtx(rc, name, scheduled, level, len(specs))
 	x.w = w
 	res.x = x
-	tr := n.newTransition(buildTxs(w, x, specs, n.height+1))
+	tr := n.newTransition(buildTxs(w, x, specs, n.height+1), x)
 	if scheduled {
 		res.out = x.drive(tr)
 	} else {
@@ -203,7 +203,7 @@ func (e engine) Run(rc *kit.RunCtx) {
 	cfg := genWorld(t, prop)
 	w := newWorld(cfg)
 	level := levels[t.Weighted("level", levelWeights(prop)...)]
-	specs := genBlock(t, w, prop)
+	specs := genBlock(t, w, prop, rc.Profile)
 
 	rc.Config["level"] = level
 	rc.Config["ntx"] = len(specs)
